@@ -328,11 +328,111 @@ theorem bodyForm_comma (n : Bool) (pl : Nat) (g cs : List Char) (hg : g.all Char
     rw [if_neg this]
     rw [e7] at hts
     simp only [Bool.and_eq_true, not_and] at hts
-    have : ¬ ((decide (1 ≤ g.length) && decide (g.length ≤ 3) &&
-        Spec.groupsOk (List.takeWhile (fun x => x != '.') (',' :: cs)) &&
-        (List.drop 1 (List.dropWhile (fun x => x != '.') (',' :: cs))).all Char.isDigit) = true) := by
-      simp only [Bool.and_eq_true, not_and]
-      intro ⟨_, h⟩; exact hts h
-    simp [this]
+    rw [ite_self]
+    refine (if_neg ?_).symm
+    intro ⟨h, _⟩
+    simp only [Bool.and_eq_true] at h
+    exact hts h.1.1.2 h.1.2
+
+
+theorem bodyForm_other (n : Bool) (pl : Nat) (g : List Char) (c : Char) (cs : List Char) (hg : g.all Char.isDigit = true)
+    (hc : c.isDigit = false) (h1 : c ≠ '.') (h2 : c ≠ ',') :
+    bodyForm n pl g (c :: cs) =
+      if bWF (g ++ c :: cs) = true ∧ bRep (g ++ c :: cs) = true then some (bDec n (g ++ c :: cs)) else none := by
+  have hl : bodyForm n pl g (c :: cs) = none := by
+    unfold bodyForm
+    dsimp only
+    split
+    · split
+      · rename_i h; exact absurd h (List.cons_ne_nil _ _)
+      · rename_i h; injection h with ha _; exact absurd ha h1
+      · rename_i h; injection h with ha _; exact absurd ha h2
+      · rfl
+    · rfl
+  rw [hl]
+  refine (if_neg ?_).symm
+  intro ⟨h, _⟩
+  unfold bWF at h
+  have e1 := bIntPart_append g (c :: cs) hg
+  rw [tw_cons_pos _ _ h1] at e1
+  have e6 := intOk_append g (c :: cs.takeWhile (· != '.')) hg (by
+    intro c' cs' h; injection h with ha _; rw [← ha]; exact hc)
+  have hgo : Spec.groupsOk (c :: cs.takeWhile (· != '.')) = false := by
+    unfold Spec.groupsOk
+    split <;> simp_all
+  rw [e1, e6, hgo] at h
+  simp at h
+
+/-- **the closed form is the specification** (on the body): `bodySpec` accepts exactly the well-formed representable
+bodies and returns the decimal as written. -/
+theorem bodySpec_eq_spec (n : Bool) (pl : Nat) (b : List Char) :
+    bodySpec n pl b = if bWF b = true ∧ bRep b = true then some (bDec n b) else none := by
+  rw [bodySpec_eq_bodyForm]
+  have hg : (b.takeWhile Char.isDigit).all Char.isDigit = true := all_takeWhile _ b
+  have hsplit : b.takeWhile Char.isDigit ++ b.dropWhile Char.isDigit = b := List.takeWhile_append_dropWhile
+  generalize b.takeWhile Char.isDigit = g at hg hsplit
+  cases hr : b.dropWhile Char.isDigit with
+  | nil =>
+    rw [hr, List.append_nil] at hsplit
+    subst hsplit
+    exact bodyForm_nil n pl g hg
+  | cons c cs =>
+    have hnd : c.isDigit = false := dropWhile_head_not b hr
+    rw [hr] at hsplit
+    subst hsplit
+    by_cases h1 : c = '.'
+    · subst h1; exact bodyForm_dot n pl g cs hg
+    · by_cases h2 : c = ','
+      · subst h2; exact bodyForm_comma n pl g cs hg
+      · exact bodyForm_other n pl g c cs hg hnd h1 h2
+
+
+/-! ## from the body to the whole literal -/
+
+theorem stripMinus_cases (s : List Char) :
+    (∃ b, s = '-' :: b ∧ Spec.stripMinus s = b ∧ Spec.isNegative s = true) ∨
+    (Spec.stripMinus s = s ∧ Spec.isNegative s = false ∧ ∀ t, s ≠ '-' :: t) := by
+  match s with
+  | [] => right; exact ⟨rfl, rfl, by intro t h; simp at h⟩
+  | c :: cs =>
+    by_cases hc : c = '-'
+    · subst hc; left; exact ⟨cs, rfl, rfl, rfl⟩
+    · right
+      refine ⟨?_, ?_, ?_⟩
+      · unfold Spec.stripMinus; split <;> simp_all
+      · unfold Spec.isNegative; split <;> simp_all
+      · intro t h; injection h with h1 _; exact hc h1
+
+theorem filter_stripMinus (s : List Char) : s.filter Char.isDigit = (Spec.stripMinus s).filter Char.isDigit := by
+  rcases stripMinus_cases s with ⟨b, hs, hb, _⟩ | ⟨h, _, _⟩
+  · rw [hb, hs, List.filter_cons_of_neg (by decide)]
+  · rw [h]
+
+theorem contains_comma_stripMinus (s : List Char) : s.contains ',' = (Spec.stripMinus s).contains ',' := by
+  rcases stripMinus_cases s with ⟨b, hs, hb, _⟩ | ⟨h, _, _⟩
+  · rw [hb, hs, List.contains_cons]; simp
+  · rw [h]
+
+theorem wf_eq_bWF (s : List Char) : Spec.WellFormedLiteral s = bWF (Spec.stripMinus s) := rfl
+theorem litScale_eq (s : List Char) : Spec.litScale s = (bFracPart (Spec.stripMinus s)).length := rfl
+theorem litMant_eq (s : List Char) : Spec.litMant s = bMant (Spec.stripMinus s) := by
+  unfold Spec.litMant bMant
+  rw [filter_stripMinus]
+  rfl
+theorem rep_eq_bRep (s : List Char) : Spec.Representable s = bRep (Spec.stripMinus s) := by
+  unfold Spec.Representable bRep
+  rw [litScale_eq, litMant_eq]
+theorem grouping_eq (s : List Char) : Spec.grouping s = bFmt (Spec.stripMinus s) := by
+  unfold Spec.grouping bFmt Spec.hasThousands
+  rw [contains_comma_stripMinus]
+  rfl
+
+/-- the decimal that is written -/
+def litDec (s : List Char) : PDec :=
+  { neg := Spec.isNegative s && Spec.litMant s != 0, mant := Spec.litMant s, scale := Spec.litScale s, fmt := Spec.grouping s }
+
+theorem litDec_eq (s : List Char) : litDec s = bDec (Spec.isNegative s) (Spec.stripMinus s) := by
+  unfold litDec bDec
+  rw [litMant_eq, litScale_eq, grouping_eq]
 
 end Okane.C07
